@@ -447,17 +447,13 @@ func (c *Ctx) checkExpiry() {
 			return okk && k == 0
 		})
 	}
-	expired := condEdges(re, true, func(a Atom) bool {
-		// timeout <= now.Sub(root.LastSeen)   or  timeout < ...
-		if a.Op != token.LEQ && a.Op != token.LSS {
-			return false
-		}
-		if a.X != ssa.Value(timeout) {
-			return false
-		}
-		cc, _, ok := callResult(a.Y)
+	isSub := func(v ssa.Value) bool {
+		cc, _, ok := callResult(v)
 		return ok && calleeName(cc) == "(time.Time).Sub" && cc.Call.Args[0] == ssa.Value(now) && lastSeenOfRoot(cc.Call.Args[1])
-	})
+	}
+	isTimeout := func(v ssa.Value) bool { return v == ssa.Value(timeout) }
+	// now.Sub(root.LastSeen) >= timeout  (or > timeout), in any source form
+	expired := append(cmpEdges(re, ">=", isSub, isTimeout), cmpEdges(re, ">", isSub, isTimeout)...)
 	nPop := 0
 	for _, ci := range callsTo(re, "container/heap.Pop") {
 		nPop++
